@@ -90,6 +90,58 @@ example : let o := sanitizeLine "open(newunit=iu, file=fn, convert='big_endian')
     o.info.convert.isSome = true ∧ o.info.newunit.isSome = true ∧ o.text = "open(iu, file=fn)".toList ∧
     effective o = "open(newunit=iu, file=fn, convert='big_endian')".toList := by decide
 
+/-! ## statements continued with `&` -/
+
+/-- **NEWUNIT=, continuation branch**: rule 5 fired on the first line `b` of a statement, its `args2` group ends with
+`&`, the node's source string is the sanitised first line followed by `T` (the remaining lines), and the first
+occurrence of `args2` in that string is the one at the end of the first line.  Then `reinsert_open_newunit` gives
+the original first line followed by the remaining lines (right-stripped): the whole statement is back.
+Without the last hypothesis the slice starts elsewhere (class `open-continued-tail-missing` when `args2` is not found
+at all, see `C05_continued_tail_missing_witness`). -/
+theorem C05_newunit_continued_restored (b : Line) (g : NewunitGroups) (T : Line)
+    (h : (ruleNewunit b).2 = some g) (hamp : endsAmp g.args2 = true)
+    (hfind : findSub g.args2 ((ruleNewunit b).1 ++ T) = some ((ruleNewunit b).1.length - g.args2.length)) :
+    newunitCont g ((ruleNewunit b).1 ++ T) = b ++ rstripWs T := by
+  have htext := ruleNewunit_text h
+  rw [htext] at hfind ⊢
+  have hlen : (g.ws ++ g.opn ++ g.val ++ g.delim.getD [] ++ g.args1 ++ g.args2).length - g.args2.length
+      = (g.ws ++ g.opn ++ g.val ++ g.delim.getD [] ++ g.args1).length := by
+    simp only [List.length_append]; omega
+  rw [hlen] at hfind
+  simp only [newunitCont, hamp, if_true]
+  rw [contTail_suffix _ _ _ hfind, ruleNewunit_some h]
+
+/-- **CONVERT=, continuation branch**: the same for `reinsert_convert_endian` and its `post` group. -/
+theorem C05_convert_continued_restored (b : Line) (nl : Bool) (g : ConvertGroups) (T : Line)
+    (h : (ruleConvert b nl).2.2 = some g) (hamp : endsAmp g.post = true)
+    (hfind : findSub g.post ((ruleConvert b nl).1 ++ T) = some ((ruleConvert b nl).1.length - g.post.length)) :
+    convertCont g ((ruleConvert b nl).1 ++ T) = b ++ rstripWs T := by
+  have htext := (ruleConvert_some h).2
+  have hne : g.post ≠ [] := by
+    intro he; rw [he] at hamp; simp [endsAmp] at hamp
+  rw [htext] at hfind ⊢
+  have hlen : (g.ws ++ g.pre ++ g.post).length - g.post.length = (g.ws ++ g.pre).length := by
+    simp only [List.length_append]; omega
+  rw [hlen] at hfind
+  simp only [convertCont, hamp, if_true]
+  rw [contTail_suffix _ _ _ hfind, ruleConvert_some_post h hne]
+
+/-- non-vacuity and composition: a continued OPEN with both arguments on its first line, sanitised source string -/
+example :
+    let o := sanitizeLine "  open(newunit=iu, convert='big_endian', &".toList true
+    effectiveCont o (o.text ++ "\n   & file=fn)  ".toList)
+      = "  open(newunit=iu, convert='big_endian', &\n   & file=fn)".toList ∧
+    KnownContTailMissing o (o.text ++ "\n   & file=fn)  ".toList) = false := by decide
+
+/-- the open class `open-continued-tail-missing` (unchanged code): parsed through `Sourcefile` the node carries the
+*raw* text, in which the `args2` group of rule 5 (taken after `CONVERT=` was removed) does not occur; `find` returns
+-1 and the statement is garbled -/
+theorem C05_continued_tail_missing_witness :
+    let o := sanitizeLine "open(newunit=iu, file=fn, convert='big_endian', &".toList true
+    let S := "open(newunit=iu, file=fn, convert='big_endian', &\n action='read')".toList
+    KnownContTailMissing o S = true ∧
+    effectiveCont o S ≠ S := by decide
+
 /-! ## directive rules -/
 
 /-- **rules 1 and 6 are anchored**: when the `@PROCESS` rule fires, the line consists of blanks followed by
